@@ -113,6 +113,14 @@ def dumpLine (dag : Dag) (s : St) : String :=
     " dk0=" ++ listTok s s.store.idxD false ++ " dk1=" ++ listTok s s.store.idxD true ++
     " rk0=" ++ listTok s s.store.idxR false ++ " rk1=" ++ listTok s s.store.idxR true
 
+/-- the reduced dump used for the crash images of C23 -/
+def dumpLight (dag : Dag) (s : St) : String :=
+  let cids := List.range dag.n
+  "ip=" ++ ",".intercalate (cids.map fun c => qTok (isPinned dag s c)) ++
+    " ck=" ++ batchTok s false cids (checkIfPinned dag s cids) ++
+    " k51=" ++ batchTok s true cids (checkIfPinnedWithType dag s 5 true cids) ++
+    " dk1=" ++ listTok s s.store.idxD true ++ " rk1=" ++ listTok s s.store.idxR true
+
 /-! parsing -/
 
 def parseCtx : String → Option Ctx
